@@ -39,10 +39,11 @@ def run(ctx):
     E.r_discovered_demanded(prog, rep)
     # `llbuild ninja build` is the engine's incremental contract seen through one client: the rules that decide that contract for C01 / C02
     for rule_fn in (E.r_scan_guards, E.r_epoch_cmp, E.r_epoch_writes, E.r_epoch_persist, E.r_dep_record, E.r_discovered_append, E.r_invalid_window,
-                    E.r_state_order, E.r_parallel_vectors, E.r_request_flags, E.r_singleuse_bits, E.r_fresh_value, E.r_value_compare):
+                    E.r_state_order, E.r_parallel_vectors, E.r_request_flags, E.r_singleuse_bits, E.r_fresh_value, E.r_value_compare, E.r_deps_reset):
         rule_fn(prog, rep)
     from rules import C17, C03
     C17.r_input_classes(prog, rep)
+    C17.r_fresh_buffers(prog, rep)
     C03.r_sql_columns(prog, rep)
     from sa.report import run_subset
     run_subset(C03, ctx, {"R-DEPBLOB-BITS", "R-DB-LOOKUP-ON-ADD"})
